@@ -97,7 +97,7 @@ func TestVerifC06Outgoing(t *testing.T) {
 			peerDone := make(chan string, 1) // what the peer got after the handshake: "" nothing, else a description
 			go func() {
 				defer c2.Close()
-				_ = c2.SetDeadline(time.Now().Add(5 * time.Second))
+				_ = c2.SetDeadline(time.Now().Add(40 * time.Second))
 				switch si {
 				case 0, 5:
 					err := crmB.handleIncomingRequest(ctx, &c06stream{c: c2})
@@ -133,7 +133,13 @@ func TestVerifC06Outgoing(t *testing.T) {
 					}
 				}
 			}()
-			sctx, scancel := context.WithTimeout(ctx, 3*time.Second)
+			// generous for the honest exchanges (a loaded machine must not turn them into failures); the
+			// silent and garbage peers only end when this expires
+			patience := 2 * time.Second
+			if si == 0 || si == 1 || si == 5 {
+				patience = 30 * time.Second
+			}
+			sctx, scancel := context.WithTimeout(ctx, patience)
 			serr := crmA.SendContactRequest(sctx, toB, bsk.GetPublic(), peer.AddrInfo{})
 			scancel()
 			c1.Close()
